@@ -1,7 +1,7 @@
 #!/bin/bash
 # usage: try_mutant.sh <patch.diff> <Cxx> [check args...]  -- applies the patch to /repo, runs the check, reverts
 set -u
-patch=$1; prop=$2; shift 2
+patch=$(readlink -f "$1"); prop=$2; shift 2
 cd /repo && git apply "$patch" || { echo "PATCH DOES NOT APPLY"; exit 9; }
 cd /verif && ./check "$prop" "$@" 2>&1 | grep -v "^   " | tail -8; rc=${PIPESTATUS[0]}
 git -C /repo checkout -- . 
